@@ -455,6 +455,10 @@ fn br_body(code: u32) -> BoxedStrategy<Vec<u8>> {
     }
 }
 
+pub fn br_chunk_strategy() -> impl Strategy<Value = BrChunk> {
+    br_chunk()
+}
+
 fn br_chunk() -> impl Strategy<Value = BrChunk> {
     prop_oneof![6 => 1u32..=10, 1 => 0u32..16]
         .prop_flat_map(|code| (Just(code), any::<bool>(), br_body(code.clamp(1, 10)), prop_oneof![4 => Just(255u8), 1 => 0u8..=3], crate::stream::mutation_strategy(), prop_oneof![5 => Just(vec![]), 1 => proptest::collection::vec(any::<u8>(), 1..20)]))
